@@ -3,7 +3,7 @@
 From Coq Require Import List ZArith Lia Bool.
 Import ListNotations.
 From CAres.Wire Require Import Cursor Cursor_proofs Name Record Parse Escape Escape_proofs RefDecode Name_ref Write Write_name Write_host
-     Write_name2 Write_pos Write_patch Write_enc Write_fields Write_query2 Write_fields2 Parse_ref3.
+     Write_name2 Write_name3 Write_pos Write_patch Write_enc Write_fields Write_query2 Write_fields2 Parse_ref3.
 From CAres.Gen Require Import Consts LeafFns Tables.
 Local Open Scope Z_scope.
 
@@ -43,7 +43,7 @@ Qed.
 
 (* ---- RRs whose RDATA follows a layout ---- *)
 Definition owner_wf (n : list N) : Prop :=
-  exists ls, n = escape_name ls /\ Forall label_ok ls /\ wire_len ls <= 256 /\ slen n < 512 /\ Forall host_label ls.
+  exists ls, split_dns_name true n = Ok ls /\ Forall label_ok ls /\ slen n < 512.
 
 Definition head_wf (r : rr) : Prop :=
   owner_wf (rr_name r) /\ 0 <= rr_class r < 65536 /\ 0 <= rr_ttl r < 2 ^ 32.
@@ -62,16 +62,16 @@ Qed.
 Definition rr_fixed (t cls ttl : Z) : list N := be16b t ++ be16b cls ++ be32b ttl.
 
 Lemma write_rr_layout b nl r rcode b' nl1 M lay :
-  live_is b M -> ol_ok M nl -> layout (rr_type r) = Some lay -> head_wf r -> fields_wf lay r ->
+  live_is b M -> ol_okg M nl -> layout (rr_type r) = Some lay -> head_wf r -> fields_wf lay r ->
   write_one_rr wfixed 0 b nl r rcode 0 = Ok (b', nl1) ->
-  exists RR, live_is b' (M ++ RR) /\ bytes_ok RR /\ ol_ok (M ++ RR) nl1 /\
+  exists RR, live_is b' (M ++ RR) /\ bytes_ok RR /\ ol_okg (M ++ RR) nl1 /\
     (Z.of_nat (length RR) <= 65535 ->
      forall post, ref_rr (M ++ RR ++ post) (length M)
-                  = Some (mkRR (rr_name r) (rr_type r) (rr_class r) (rr_ttl r) (lay_vals lay r), (length M + length RR)%nat, None, true)).
+                  = Some (mkRR (canon (rr_name r)) (rr_type r) (rr_class r) (rr_ttl r) (lay_vals lay r), (length M + length RR)%nat, None, true)).
 Proof.
   intros Hb Hol Hlay (Hown & Hcls & Httl) Hfw H.
   destruct (layout_last_ok _ _ Hlay) as (Hlast & Htr & Hn41).
-  destruct Hown as (ls & Hnm & Hls & Hwl & Hsl & Hhost).
+  destruct Hown as (ls & Hsp & Hls & Hsl). pose proof (canon_of true _ _ Hsp) as Hnm.
   unfold write_one_rr in H. cbv zeta in H.
   (* owner name *)
   pose proof (name_write_enc wfixed 0 b (Some nl) true (rr_name r)) as W. cbn [wfixed wv_msg_relative] in W.
@@ -79,8 +79,7 @@ Proof.
   destruct (name_enc wfixed (Z.of_nat (length M)) (Some nl) true (rr_name r)) as [[N nl0o]| |] eqn:En;
     [|rewrite W in H; discriminate H|rewrite W in H; discriminate H].
   destruct W as (b0 & Ew & Hl0 & Hw0 & Hf0). rewrite Ew in H. cbn [bind fst snd] in H.
-  rewrite Hnm in En.
-  destruct (name_enc_ok true M nl ls N nl0o Hol Hls Hwl ltac:(rewrite <- Hnm; exact Hsl) (fun _ => Hhost) En) as (ol0 & -> & Hol0 & HNb & HrefN).
+  destruct (name_enc_ok true M nl (rr_name r) ls N nl0o Hol Hsp Hls Hsl En) as (ol0 & -> & Hol0 & HNb & HrefN).
   assert (Hb0 : live_is b0 (M ++ N)).
   { destruct Hb as (A1 & A2 & A3). split; [auto | split; [auto | rewrite Hl0, A3; reflexivity]]. }
   replace (if 0 >? rr_ttl r then 0 else rr_ttl r - 0) with (rr_ttl r) in H
@@ -97,7 +96,7 @@ Proof.
   destruct (write_rr_data wfixed 0 b1 r nlp rcode) as [[b2 nlp2]| |] eqn:Ed; cbn [bind fst snd] in H; [|discriminate H|discriminate H].
   rewrite (write_rr_data_layout wfixed 0 (rr_type r) lay r b1 nlp rcode eq_refl Hlay) in Ed.
   assert (HolP : forall Q, olp_ok (((M ++ N) ++ F) ++ Q) nlp).
-  { intros Q. unfold nlp. destruct (allow_name_comp (rr_type r)); [|exact I]. cbn [olp_ok]. rewrite <- !app_assoc. rewrite (app_assoc M N). apply ol_ok_app. exact Hol0. }
+  { intros Q. unfold nlp. destruct (allow_name_comp (rr_type r)); [|exact I]. cbn [olp_ok]. rewrite <- !app_assoc. rewrite (app_assoc M N). apply ol_okg_app. exact Hol0. }
   destruct (wfields_spec lay r b1 nlp b2 nlp2 (P ++ be16b 0) (P ++ be16b 0) Ed Hb1 eq_refl (HolP _) Hfw Hlast)
     as (D & Hb2 & HDb & _ & _ & _).
   (* the same run seen from the final octets: the slot holds the length *)
@@ -122,7 +121,7 @@ Proof.
   split.
   { destruct nlp2 as [l2|] eqn:E2; [exact HolD|].
     assert (nlp = None -> False \/ True) by auto.
-    unfold C, P. rewrite <- !app_assoc. rewrite (app_assoc M N). apply ol_ok_app. exact Hol0. }
+    unfold C, P. rewrite <- !app_assoc. rewrite (app_assoc M N). apply ol_okg_app. exact Hol0. }
   intros Hlen post.
   assert (Hrdl : rdl_of (length (be16b 0 ++ D)) = Z.of_nat (length D)).
   { rewrite rdl_of_small; rewrite app_length; cbn [length be16b]; [lia | lia|].
@@ -161,16 +160,16 @@ Proof.
   replace (rr_type r =? 41) with false by (symmetry; apply Z.eqb_neq; exact Hn41).
   rewrite Hlay. destruct (Hdec post) as (used & Rf & Hu & Hx). rewrite Rf.
   replace (Nat.ltb (length C + length D) used) with false by (symmetry; apply Nat.ltb_ge; exact Hu).
-  rewrite Hx. rewrite <- Hnm. f_equal. f_equal. f_equal. f_equal.
+  rewrite Hx. rewrite Hnm. f_equal. f_equal. f_equal. f_equal.
   rewrite <- (app_length C D), <- HRR, app_length. reflexivity.
 Qed.
 
 (* ---- the common front of ares_dns_write_rr: owner name, TYPE CLASS TTL, the RDLENGTH slot ---- *)
 Lemma write_rr_front b nl r rcode b' nl1 M :
-  live_is b M -> ol_ok M nl -> head_wf r -> 0 <= rr_type r ->
+  live_is b M -> ol_okg M nl -> head_wf r -> 0 <= rr_type r ->
   write_one_rr wfixed 0 b nl r rcode 0 = Ok (b', nl1) ->
   exists ls N ol0 bF,
-    rr_name r = escape_name ls /\ ol_ok (M ++ N) ol0 /\ bytes_ok N /\
+    canon (rr_name r) = escape_name ls /\ ol_okg (M ++ N) ol0 /\ bytes_ok N /\
     (forall post, ref_name (M ++ N ++ post) (length M) = Some (ls, (length M + length N)%nat)) /\
     let P := (M ++ N) ++ rr_fixed (Z.land (rr_type r) 65535) (rr_class r) (rr_ttl r) in
     live_is bF P /\
@@ -181,15 +180,14 @@ Lemma write_rr_front b nl r rcode b' nl1 M :
                    live_is b' (P' ++ be16b (rdl_of (length X)) ++ skipn 2 X).
 Proof.
   intros Hb Hol (Hown & Hcls & Httl) Htr H.
-  destruct Hown as (ls & Hnm & Hls & Hwl & Hsl & Hhost).
+  destruct Hown as (ls & Hsp & Hls & Hsl). pose proof (canon_of true _ _ Hsp) as Hnm.
   unfold write_one_rr in H. cbv zeta in H.
   pose proof (name_write_enc wfixed 0 b (Some nl) true (rr_name r)) as W. cbn [wfixed wv_msg_relative] in W.
   rewrite (live_is_len b M Hb), Z.sub_0_r in W.
   destruct (name_enc wfixed (Z.of_nat (length M)) (Some nl) true (rr_name r)) as [[N nl0o]| |] eqn:En;
     [|rewrite W in H; discriminate H|rewrite W in H; discriminate H].
   destruct W as (b0 & Ew & Hl0 & Hw0 & Hf0). rewrite Ew in H. cbn [bind fst snd] in H.
-  rewrite Hnm in En.
-  destruct (name_enc_ok true M nl ls N nl0o Hol Hls Hwl ltac:(rewrite <- Hnm; exact Hsl) (fun _ => Hhost) En) as (ol0 & -> & Hol0 & HNb & HrefN).
+  destruct (name_enc_ok true M nl (rr_name r) ls N nl0o Hol Hsp Hls Hsl En) as (ol0 & -> & Hol0 & HNb & HrefN).
   assert (Hb0 : live_is b0 (M ++ N)).
   { destruct Hb as (A1 & A2 & A3). split; [auto | split; [auto | rewrite Hl0, A3; reflexivity]]. }
   replace (if 0 >? rr_ttl r then 0 else rr_ttl r - 0) with (rr_ttl r) in H
@@ -250,12 +248,12 @@ Proof.
 Qed.
 
 Lemma write_rr_opt b nl r rcode b' nl1 M u ver fl l :
-  live_is b M -> ol_ok M nl -> head_wf r -> opt_wf r u ver fl l -> 0 <= rcode ->
+  live_is b M -> ol_okg M nl -> head_wf r -> opt_wf r u ver fl l -> 0 <= rcode ->
   write_one_rr wfixed 0 b nl r rcode 0 = Ok (b', nl1) ->
-  exists RR, live_is b' (M ++ RR) /\ bytes_ok RR /\ ol_ok (M ++ RR) nl1 /\
+  exists RR, live_is b' (M ++ RR) /\ bytes_ok RR /\ ol_okg (M ++ RR) nl1 /\
     (Z.of_nat (length RR) <= 65535 ->
      forall post, ref_rr (M ++ RR ++ post) (length M)
-                  = Some (mkRR (rr_name r) 41 1 0
+                  = Some (mkRR (canon (rr_name r)) 41 1 0
                                [(ARES_RR_OPT_UDP_SIZE, FU16 u); (ARES_RR_OPT_VERSION, FU8 ver);
                                 (ARES_RR_OPT_FLAGS, FU16 fl); (ARES_RR_OPT_OPTIONS, FOpt l)],
                           (length M + length RR)%nat, Some ((rcode / 16) mod 256), true)).
@@ -312,7 +310,7 @@ Proof.
     repeat apply bytes_ok_app; try apply bytes_ok_be16b; exact Hs2. }
   exists RR. rewrite HRR. split; [exact Hfin|].
   split; [unfold RR; repeat apply bytes_ok_app; try apply bytes_ok_be16b; try apply bytes_ok_be32b; assumption|].
-  split; [rewrite <- HRR; unfold RR; rewrite app_assoc; apply ol_ok_app; exact Hol0|].
+  split; [rewrite <- HRR; unfold RR; rewrite app_assoc; apply ol_okg_app; exact Hol0|].
   intros Hlen post.
   assert (Hrdl : rdl_of (length (be16b 0 ++ D)) = Z.of_nat (length D)).
   { rewrite rdl_of_small; rewrite app_length; cbn [length be16b]; [lia | lia|].
@@ -344,7 +342,7 @@ Proof.
     by (symmetry; apply Nat.ltb_ge; rewrite !app_length; lia).
   unfold ref_body. cbv zeta. rewrite !Nat2Z.id. change (41 =? 41) with true. cbv iota.
   unfold D. rewrite (tlvs_decodes l C post _ Hl1) by (pose proof (enc_tlvs_len l); lia).
-  rewrite HT1, HT2, HT3. rewrite <- Hnm. f_equal. f_equal. f_equal. f_equal.
+  rewrite HT1, HT2, HT3. rewrite Hnm. f_equal. f_equal. f_equal. f_equal.
   fold D. assert (HCe : M ++ RR = C ++ D) by (unfold RR, C, MN3, MN2, MN; rewrite Hrdl; rewrite <- !app_assoc; reflexivity).
   rewrite <- (app_length C D), <- HCe, app_length. reflexivity.
 Qed.
@@ -356,13 +354,13 @@ Definition raw_wf (r : rr) (rt : Z) (dopt : option (list N)) : Prop :=
   get_field r ARES_RR_RAW_RR_DATA = Some (FBin dopt) /\ bytes_ok (match dopt with Some d => d | None => [] end).
 
 Lemma write_rr_raw b nl r rcode b' nl1 M rt dopt :
-  live_is b M -> ol_ok M nl -> head_wf r -> raw_wf r rt dopt ->
+  live_is b M -> ol_okg M nl -> head_wf r -> raw_wf r rt dopt ->
   write_one_rr wfixed 0 b nl r rcode 0 = Ok (b', nl1) ->
   let d := match dopt with Some d => d | None => [] end in
-  exists RR, live_is b' (M ++ RR) /\ bytes_ok RR /\ ol_ok (M ++ RR) nl1 /\
+  exists RR, live_is b' (M ++ RR) /\ bytes_ok RR /\ ol_okg (M ++ RR) nl1 /\
     (Z.of_nat (length RR) <= 65535 ->
      forall post, ref_rr (M ++ RR ++ post) (length M)
-                  = Some (mkRR (rr_name r) ARES_REC_TYPE_RAW_RR (rr_class r) (rr_ttl r)
+                  = Some (mkRR (canon (rr_name r)) ARES_REC_TYPE_RAW_RR (rr_class r) (rr_ttl r)
                                [(ARES_RR_RAW_RR_TYPE, FU16 rt); (ARES_RR_RAW_RR_DATA, FBin (Some d))],
                           (length M + length RR)%nat, None, true)).
 Proof.
@@ -409,7 +407,7 @@ Proof.
   assert (HRR : M ++ RR = P' ++ be16b (rdl_of (length (be16b 0 ++ d))) ++ d) by (unfold RR, P', P0; rewrite <- !app_assoc; reflexivity).
   exists RR. rewrite HRR. split; [exact Hfin|].
   split; [unfold RR; repeat apply bytes_ok_app; try apply bytes_ok_be16b; try apply bytes_ok_be32b; assumption|].
-  split; [rewrite <- HRR; unfold RR; rewrite app_assoc; apply ol_ok_app; exact Hol0|].
+  split; [rewrite <- HRR; unfold RR; rewrite app_assoc; apply ol_okg_app; exact Hol0|].
   intros Hlen post.
   assert (Hrdl : rdl_of (length (be16b 0 ++ d)) = Z.of_nat (length d)).
   { rewrite rdl_of_small; rewrite app_length; cbn [length be16b]; [lia | lia|].
@@ -441,7 +439,7 @@ Proof.
     by (symmetry; apply Nat.ltb_ge; rewrite !app_length; lia).
   unfold ref_body. cbv zeta. rewrite !Nat2Z.id.
   replace (rt =? 41) with false by (symmetry; apply Z.eqb_neq; exact Hn41).
-  rewrite Hlay, slice_app_mid. rewrite <- Hnm. f_equal. f_equal. f_equal. f_equal.
+  rewrite Hlay, slice_app_mid. rewrite Hnm. f_equal. f_equal. f_equal. f_equal.
   assert (HCe : M ++ RR = C ++ d) by (unfold RR, C, MN3, MN2, MN; rewrite Hrdl; rewrite <- !app_assoc; reflexivity).
   rewrite <- (app_length C d), <- HCe, app_length. reflexivity.
 Qed.
